@@ -361,6 +361,10 @@ Example c04_1pu_kw_refused_pairs :
    ["A128GCM"; "A192GCM"; "A256GCM"; "C20P"; "XC20P"]%string).
 Proof. vm_compute. reflexivity. Qed.
 
+(* the inverse-pair contracts are satisfiable *)
+Example c04_contracts_satisfiable : contracts toy_oracles.
+Proof. exact toy_contracts. Qed.
+
 (* ---- non-vacuity: recorded encryptions of joserfc are reproduced octet for octet by the model,
    and the model decrypts them (compact dir, flattened A128KW+aad, compact ECDH-ES, general x2) ---- *)
 Example c04_nonvacuous :
